@@ -191,6 +191,16 @@ class normalize_chunks:
         for prev in [(12, 10, 10, 10, 10), (30, 1, 1, 20), (7, 7, 7, 31)]:
             for lim in (5, 11, 12, 20, 33, 64):
                 yield {"chunks": ("auto",), "shape": (sum(prev),), "limit": lim, "dtype": "u1", "previous_chunks": (prev,)}
+        # an explicit, non-uniform layout on a fixed axis next to 'auto' axes: the budget left for the auto axes
+        # depends on the *largest* fixed block, wherever it sits in the tuple
+        from contracts.slicing import chunkings as _ch2
+        for n, fx in _ch2(7 if tier == "quick" else 10, zero=False):
+            if len(fx) < 2 or len(set(fx)) < 2:
+                continue
+            for lim in (16, 40, 400):
+                yield {"chunks": (fx, "auto"), "shape": (n, 100), "limit": lim, "dtype": "u1", "previous_chunks": None}
+                yield {"chunks": ("auto", fx), "shape": (37, n), "limit": lim, "dtype": "i4", "previous_chunks": None}
+            yield {"chunks": (fx, "auto", "auto"), "shape": (n, 9, 50), "limit": 64, "dtype": "u1", "previous_chunks": None}
         # previous chunks (first: the recorded witness of known finding F4)
         yield {"chunks": ("auto",), "shape": (10,), "limit": 64, "dtype": "f8", "previous_chunks": ((1, 9),)}
         from contracts.slicing import chunkings
